@@ -44,12 +44,13 @@ def enc_progs(progs):
 class LockRun:
     """one run of the real RWLockWrite under the controlled scheduler"""
 
-    def __init__(self, progs, step_timeout=30.0):
+    def __init__(self, progs, step_timeout=30.0, names=None):
         import casbin.util.rwlock as rwmod
         self.progs = progs
         with sched.patched(rwmod):
             self.lock = rwmod.RWLockWrite()
         self.ctl = sched.Controller(step_timeout=step_timeout)
+        self.ctl.thread_names = names
         self.pos = [[0, "acq"] for _ in progs]
         self.last = None
         self.monitor = Monitor()
@@ -110,6 +111,7 @@ class LockRun:
     def run(self, choose):
         res = self.ctl.run([self.body(p) for p in self.progs], choose, observe=self.observe)
         res.progs = self.progs
+        res.names = self.ctl.thread_names
         res.events = events_of(res)
         return res
 
@@ -259,6 +261,8 @@ class Judge:
         self.n_blocked += blocked
         chk.count((tuple(progs), tuple(schedule)) if (blocked and len(progs) > 1) else None)
         case = dict(progs=progs, schedule=schedule, events=describe_events(res.events), status=res.status)
+        if getattr(res, "names", None) is not None:
+            case["thread_names"] = list(res.names)
         if res.status == "hang":
             self.abort = True      # a worker may still be spinning: stop driving the real lock altogether
         if res.status in ("error", "hang", "bad-choice"):
@@ -417,6 +421,29 @@ def explore_impl(chk, judge, mix_list, pruned, deadline, stats, label, abstract=
     judge.flush()
     if label in stats:
         stats[label]["wall_s"] = round(time.time() - t_start, 1)
+
+
+def odd_thread_names_stratum(chk, judge, deadline, stats):
+    """who the threads ARE is no input of the lock: every interleaving of all mixes of two threads (and three threads x one
+    round) again with threads whose names are the empty string, and with threads that all carry the same name"""
+    runs = 0
+    for names in ([""], ["worker"]):
+        for progs in mixes(2) + [m for m in mixes(3) if all(len(p) == 1 for p in m)]:
+            if judge.abort or time.time() > deadline:
+                stats.setdefault("skipped_odd_thread_names", []).append("|".join(progs))
+                continue
+
+            def run_once(choose, progs=progs, names=names):
+                return LockRun(progs, names=names).run(choose)
+
+            def on_run(res):
+                judge.add(res, skip=res.forced - 1 if getattr(res, "forced", 0) > 0 else 0)
+                return not judge.abort
+
+            st = sched.explore(run_once, deadline=deadline, on_run=on_run)
+            runs += st.runs
+    judge.flush()
+    stats["odd_thread_names"] = dict(name_sets=2, runs=runs)
 
 
 def readers_share_probe(chk, judge, stats):
@@ -630,8 +657,8 @@ def model_bfs(chk, mix_list, deadline, which=0, max_states=3_000_000):
     return dict(mixes=len(mix_list), states=states, transitions=transitions, levels=levels, complete=complete), viol
 
 
-def replay_on_impl(progs, schedule):
-    res = LockRun(tuple(progs)).run(sched.follow(list(schedule), then=lambda ctl, en: None))
+def replay_on_impl(progs, schedule, names=None):
+    res = LockRun(tuple(progs), names=names).run(sched.follow(list(schedule), then=lambda ctl, en: None))
     return res
 
 
@@ -677,7 +704,7 @@ def replay(chk):
         print("replay file names a broken theorem/correspondence, not an input:", json.dumps(rec.get("broken"))[:800])
         sys.exit(1)
     judge = Judge(chk)
-    res = replay_on_impl(c["progs"], c["schedule"])
+    res = replay_on_impl(c["progs"], c["schedule"], names=c.get("thread_names"))
     print(f"replay: mix={'|'.join(c['progs'])} schedule={res.schedule} status={res.status}")
     for line in describe_events(res.events):
         print("   ", line)
@@ -717,6 +744,7 @@ def run(chk, tier, t_budget, escalate=False):
     else:
         with sched.pinned_cpu():
             two_locks_stratum(chk, t0 + t_budget * 0.15, stats)
+            odd_thread_names_stratum(chk, judge, t0 + t_budget * 0.3, stats)
             readers_share_probe(chk, judge, stats)
             # A: EVERY interleaving of the small mixes
             explore_impl(chk, judge, m1 + m2 + one_round(m3), False, deadline, stats, "full_le2threads_and_3x1")
